@@ -190,6 +190,36 @@ def _classify_cdc(m):
     return "wire"
 
 
+def _classify_ctor(depth, buffered):
+    """What `stream.AsyncFIFO(layout, depth, buffered)` really builds: `refused` or
+    `built <pointer bits - 1> <storage words> <tokens it takes with the consumer idle>` (the last one measured by
+    driving the real module with write-clock edges only — plus, when buffered, the read edges that move one word
+    into the output register — until sink.ready falls)."""
+    from migen.genlib import fifo as mfifo
+    from migen.fhdl.specials import Memory
+    try:
+        m = stream.AsyncFIFO(L8, depth, buffered=bool(buffered))
+    except (AssertionError, ValueError):
+        return "refused"
+    af = _has(m, mfifo.AsyncFIFO)
+    if af is None:
+        return "other:" + type(m).__name__
+    ptr_bits = {len(sp.o) for sp in c05lib.own_multiregs(af)}
+    mems = [sp for sp in af._fragment.specials if isinstance(sp, Memory)]
+    kk = (ptr_bits.pop() - 1) if len(ptr_bits) == 1 else -1
+    words = mems[0].depth if len(mems) == 1 else -1
+    if not (0 <= kk <= 8):
+        return "built %d %d ?" % (kk, words)
+    inst = AFifoInst("ctor probe", m, kk, buffered=bool(buffered), layout=L8)
+    taken = 0
+    for t in range(3 * (1 << kk) + 12):
+        # write edge offering a token; for the buffered variant also read edges (consumer never ready) so that the
+        # output register fills
+        o = impl_step(inst, (1, 1 if buffered else 0, 0, 0, 1, t & 0xff, 0))
+        taken += 1 if o[0] else 0
+    return "built %d %d %d" % (kk, words, taken)
+
+
 def glue_checks(ctx):
     """Mode C for the selection glue: the Lean decision functions (`cdcKind`, `uartFifoKind`, `uartTxFifo`,
     `uartRxFifo`) against what the real constructors build, over a grid of domain names, depths and options."""
@@ -207,6 +237,13 @@ def glue_checks(ctx):
                 cases.append(("uart_fifo_kind %d %s %s" % (depth, a, b),
                               lambda a=a, b=b, depth=depth: _classify_fifo(uart._get_uart_fifo(depth, sink_cd=a, source_cd=b))))
     cases.append(("uart_fifo_kind 16 sys sys", lambda: _classify_fifo(uart._get_uart_fifo(16))))     # default arguments
+    # constructor arithmetic: which requested depths are built (no rounding), pointer width, storage, capacity
+    for depth in [None] + list(range(0, 19)) + [31, 32, 33, 48, 64, 100, 128, 255, 256]:
+        for buf in (0, 1):
+            if buf and depth not in (None, 3, 4, 8, 12, 16):
+                continue
+            cases.append(("afifo_ctor %s %d" % ("none" if depth is None else depth, buf),
+                          lambda depth=depth, buf=buf: _classify_ctor(depth, buf)))
     for p in doms:
         for (dt, dr) in ((16, 16), (8, 32)):
             mk = lambda p=p, dt=dt, dr=dr: uart.UART(phy=None, tx_fifo_depth=dt, rx_fifo_depth=dr, phy_cd=p)
